@@ -71,6 +71,13 @@ def t3_case(case):
     nsteps = int(rng.integers(2, 5))
     scale_h = 0.3 / max(1.0, float(np.max(np.abs(A))) * N)
     hs = [float(scale_h * rng.uniform(0.3, 1.0)) for _ in range(nsteps)]
+    if case['k'] % 2 == 0:
+        # a step size that comes back after a different one (a cache keyed on "the step size changed" must notice)
+        nsteps = max(nsteps, 3)
+        hs = (hs + [hs[-1]])[:nsteps] if len(hs) < nsteps else hs
+        hs[2] = hs[0]
+        if nsteps >= 4:
+            hs[3] = hs[0]
     normalize = int(rng.choice([0, 1] if flavour == 'markov' else [0, 2]))
     mr = spec.max_ranks(rd, [1] * d)
     I = np.eye(N)
